@@ -493,6 +493,8 @@ class World(BaseWorld):
             return "skipped"
         if t["cycle"]:
             return "skipped-cycle"
+        if self.prop != "C07" and not M.is_connected(t["src_model"]):
+            return "skipped-disconnected"      # no relation is promised for disconnected diagrams
         outcome, nf = self._normal_form(t["real_src"], t["left"], NF_MIN_BUDGET * 10)
         if outcome != "value":
             raise self.vio("termination", "normalize() ended after %d steps but normal_form() gave %s"
@@ -595,9 +597,11 @@ class World(BaseWorld):
                 self.note("connected_trace_revisits_but_ends")
             if outcome == "NotImplementedError":
                 raise self.vio("termination", "NotImplementedError on a connected diagram")
-        if ended and not repeated and outcome != "value":
+        if connected and ended and not repeated and outcome != "value":
             raise self.vio("termination", "the trace ends after finitely many distinct steps but "
                            "normal_form gave %s" % outcome)
+        if not connected and ended and not repeated and outcome != "value":
+            self.note("disconnected_trace_ends_but_normal_form_refuses")    # allowed by the statement
         if not ended and outcome == "value":
             self.note("nf_value_on_repeating_trace")   # soundness of the value is checked below
         if outcome == "NotImplementedError":
@@ -609,7 +613,10 @@ class World(BaseWorld):
         nm = self.check_value(nf, model, "normal form")
         self.nf_done[(model, left)] = nm
         if ended and not repeated and (nf != last or nm != last_model):
-            raise self.vio("final", "normal_form differs from the last step of its own trace")
+            if connected or self.prop == "C07":
+                # (C07: the trace is the snake removal itself; C06: canonical, so both must agree)
+                raise self.vio("final", "normal_form differs from the last step of its own trace")
+            self.note("disconnected_normal_form_differs_from_trace_end")
         if not boxes_preserved(model, nm, self.cfg["cls"] in ("rigid", "pro")):
             raise self.vio("boxes", "normal form has other boxes than its input%s" % (
                 " minus cups and caps" if self.cfg["cls"] in ("rigid", "pro") else ""))
